@@ -114,8 +114,10 @@ def session(rng, cid, force_close=None, h_choices=(400,), steps=(4, 9), stall_bi
             elif out_len > 0 and r < 0.5:
                 r = 0.0           # timer event with data queued
             elif out_len > 0 and r < 0.65:
-                r = 0.99          # would-block
-                g.op("wscript wb"); g.op("write")
+                # would-block, sometimes after the transport took a few bytes (a frame half written)
+                g.op("wscript " + ("wb" if rng.random() < 0.5 else "w:%d wb" % rng.choice([1, 3, 5, 7]))); g.op("write")
+                if tm and "w:" in g.ops[-2]:
+                    tm.tx["last"] = now
                 continue
         if r < 0.40:
             if stall_bias and tm and partial is None:
@@ -152,9 +154,14 @@ def session(rng, cid, force_close=None, h_choices=(400,), steps=(4, 9), stall_bi
                 partial = None
                 g.op("feed c:%s" % rest.hex()); g.op("ev stream r")
             if tm: tm.rx["last"] = now
-        elif r < 0.65:
+        elif r < 0.60:
             # a frame handed to process() directly: no bytes read, no liveness
             g.feed([mg.heartbeat()], direct=True)
+        elif r < 0.65 and partial is None:
+            # Connection.Blocked / Unblocked: ordinary inbound traffic as far as liveness goes
+            f = g.use(mg.blocked("low on memory") if rng.random() < 0.7 else mg.unblocked())
+            g.op("feed c:%s" % f.bytes.hex()); g.op("ev stream r")
+            if tm: tm.rx["last"] = now
         elif r < 0.80 and not sealed:
             g.op("send %s send %s" % (h1, hx(amqp.body(1, b"x" * rng.randint(0, 5)))))
             g.op("ev 1")
@@ -185,6 +192,28 @@ def session(rng, cid, force_close=None, h_choices=(400,), steps=(4, 9), stall_bi
     c.meta["h"] = h
     c.meta["nominal_ms"] = now
     return c
+
+
+def blocked_then_silent_cases(rng):
+    """Directed: the server says Connection.Blocked and then nothing at all: 2h later the connection
+    is declared dead like after any other silence (a blocked connection still gets heartbeats)."""
+    cases = []
+    for k, h in enumerate([400, 300]):
+        g = Gen(rng, chmax=2, bound=4, via_stream=0.0)
+        h1 = g.open_channel(1); g.bind_opened(h1, 1)
+        g.op("wscript w:1000000"); g.op("write")
+        g.op("hb-start %d" % h)
+        g.op("sleep 100")
+        f = g.use(mg.blocked("disk"))
+        g.op("feed c:%s" % f.bytes.hex()); g.op("ev stream r")
+        g.op("sleep %d" % (h + 200)); g.op("hbev"); g.op("dump")
+        g.op("wscript w:1000000"); g.op("write")
+        g.op("sleep %d" % (h + 200)); g.op("hbev"); g.op("dump")
+        g.op("sleep %d" % (h + 200)); g.op("hbev"); g.op("dump")
+        c = g.case("blk%d" % k)
+        c.meta["h"] = h
+        cases.append(c)
+    return cases
 
 
 def tx_with_data_queued_cases(rng):
